@@ -22,6 +22,8 @@ TRUSTED = ['rustc nightly MIR', 'slice::sort / Vec::dedup semantics (std)']
 SORTS = {'sort', 'sort_unstable', 'sort_by', 'sort_by_key', 'sort_unstable_by', 'sort_unstable_by_key', 'sort_by_cached_key'}
 DEDUPS = {'dedup', 'dedup_by', 'dedup_by_key'}
 
+THOROUGH_MAIN_CONFIGS = ['b248s6', 'nostd']
+
 
 def run(ctx, rep):
     db = ctx.main
@@ -56,39 +58,51 @@ def run(ctx, rep):
     rep.ob('C10.typestate', 'deduplicated', ok_dedup,
            'the returned query vector must pass through dedup after sort on every path (strictly increasing, no repeats): '
            f'sort at {sorts}, dedup at {dedups}; two samples can collide modulo the domain size', fn.loc(), cfg, sample=True)
-    # sampling closure
-    closures = db.closure_creations(fn)
-    ok_range = ok_count = False
-    detail = ''
-    for cp in closures:
+    # ---- range: every sample is a remainder modulo query_upper_bound of the low 128 bits of a squeeze ----
+    ret = fl.leaves(0)
+    need = {
+        'upper bound (parameter 3)': lambda x: x == 'a3',
+        'DIVISOR constant (low 128 bits)': lambda x: x.startswith('const:swiftness_stark::queries::DIVISOR'),
+        'div_rem': lambda x: x == 'op:div_rem',
+        'a transcript squeeze': lambda x: x.startswith('call:' + T_SQUEEZE) or x.startswith('call:' + T_SQUEEZE_N),
+    }
+    missing = [k for k, pr in need.items() if not any(pr(x) for x in ret)]
+    rep.ob('C10.range', 'sample-dependencies', not missing,
+           f'returned samples must derive from a squeeze reduced by DIVISOR and by query_upper_bound through div_rem; missing: {missing}',
+           fn.loc(), cfg)
+    # precise form when the sampling closure is recognisable: the LAST operation is the remainder by the upper bound
+    decided = False
+    for cp in db.closure_creations(fn):
         cf = db.fns[cp]
-        T = exprtree.Trees(db, cf)
-        t = T.local(0)
-        detail = exprtree.show(t)[:200]
-        # proj(div_rem(proj(div_rem(squeeze, DIVISOR), 1), <a1.1>), 1)
-        if t[0] == 'proj' and t[2] == '1' and isinstance(t[1], tuple) and t[1][0] == 'div_rem':
-            inner, divisor = t[1][1], t[1][2]
-            sd = exprtree.show(divisor)
-            ok_range = sd.replace('(', '').replace(')', '') in ('a1.1', '*a1.1') or sd == 'a1.1'
-            si = exprtree.show(inner)
-            ok_range = ok_range and 'random_felt_to_prover' in si and 'div_rem' in si
-    rep.ob('C10.range', 'sample=remainder-mod-upper-bound', ok_range, f'sample expression: {detail}', fn.loc(), cfg)
-    # the closure captures (&mut transcript, &query_upper_bound): capture .1 must be parameter 3
-    cap_ok = False
-    T = exprtree.Trees(db, fn)
-    for b in fn.blocks:
-        for s in b['stmts']:
-            if s['k'] == 'assign' and s['rv'].get('k') == 'agg' and s['rv'].get('agg') == 'closure':
-                ops = [T.operand(o) for o in s['rv']['ops']]
-                cap_ok = len(ops) == 2 and ops[0] == ('arg', 1) and ops[1] == ('arg', 3)
-    rep.ob('C10.range', 'captures', cap_ok, 'the sampling closure captures (transcript, query_upper_bound)', fn.loc(), cfg)
-    rng = None
-    for b in fn.blocks:
-        for s in b['stmts']:
-            if s['k'] == 'assign' and s['rv'].get('k') == 'agg' and s['rv'].get('adt') == 'core::ops::range::Range':
-                rng = [T.operand(o) for o in s['rv']['ops']]
-    ok_count = rng is not None and rng[0] == ('val', 0) and rng[1] == ('arg', 2)
-    rep.ob('C10.count', 'range=0..n_samples', ok_count, f'sampling range: {[exprtree.show(x) for x in rng] if rng else None}', fn.loc(), cfg)
+        if not any(t['f'].get('name') == 'div_rem' for _, t in cf.calls()):
+            continue
+        Tc = exprtree.Trees(db, cf)
+        t = Tc.local(0)
+        if isinstance(t, tuple) and t[0] == 'proj' and isinstance(t[1], tuple) and t[1][0] == 'div_rem':
+            decided = True
+            sd = exprtree.show(t[1][2])
+            # the divisor is a captured variable (a1.<k>) or a closure parameter; find which capture it is
+            cap_ok = False
+            m = __import__('re').match(r'^\(?\*?a1\.(\d+)\)?$', sd.replace('(', '').replace(')', ''))
+            T = exprtree.Trees(db, fn)
+            for b in fn.blocks:
+                for st in b['stmts']:
+                    if st['k'] == 'assign' and st['rv'].get('k') == 'agg' and st['rv'].get('closure') == cp and m:
+                        k = int(m.group(1))
+                        if k < len(st['rv']['ops']):
+                            cap_ok = T.operand(st['rv']['ops'][k]) == ('arg', 3)
+            rep.ob('C10.range', 'last-op-is-remainder-by-upper-bound', t[2] == '1' and cap_ok,
+                   f'sample = {exprtree.show(t)[:160]}; divisor resolves to query_upper_bound: {cap_ok}', cf.loc(), cfg)
+    if not decided:
+        rep.undecided.append('C10.range: sampling expression not in a recognised closure form; only its dependencies were checked')
+    # ---- count: the number of samples is driven by n_samples only ----
+    its = [g for g in dataflow.effective_guards(db, GENERATE_QUERIES, sinks='iter') if (getattr(g, 'kind', '') or '').startswith('iter')
+           and g.kind != 'iter:alloc']
+    drivers = [g for g in its if any(x == 'a2' for x in g.lhs)]
+    others = [g for g in its if g.root in ('range', 'cond') and any(x.startswith('a') and x != 'a2' and not x.startswith('a1') for x in g.lhs)]
+    rep.ob('C10.count', 'driven-by-n_samples', bool(drivers) and not others,
+           f'{len(drivers)} iteration site(s) bounded by n_samples; sites bounded by another numeric parameter: {[(g.fn.split("::")[-1], sorted(g.lhs)[:3]) for g in others]}',
+           fn.loc(), cfg)
     # the driver: samples collected from the mapped range
     v = db.fn(VERIFY, 'C10')
     Tv = exprtree.Trees(db, v)
